@@ -57,6 +57,7 @@ StepViolations(e) ==
     (IF e.op = "Select" /\ Registered(e.e) # {} /\ e.res \notin Registered(e.e) THEN {"SelectValid"} ELSE {})
     \cup (IF e.op = "Select" /\ Registered(e.e) = {} /\ e.res \notin {NONE, REMOTE} THEN {"SelectValid"} ELSE {})
     \cup (IF e.op = "Select" /\ ~e.allow /\ e.res = REMOTE THEN {"NoRemoteWhenNotAllowed"} ELSE {})
+    \cup (IF e.op = "Select" /\ e.res = REMOTE /\ e.e \notin Remote THEN {"RemoteOnlyIfAdvertised"} ELSE {})
     \cup (IF e.op = "Select" /\ Registered(e.e) = {} /\ e.allow /\ e.e \in Remote /\ e.res # REMOTE
           THEN {"RemoteWhenAvailable"} ELSE {})
     \cup (IF e.op = "Quiesce" /\ ~ConcOK(e.calls) THEN {"ConcurrentSelectValid"} ELSE {})
